@@ -226,8 +226,13 @@ def main_fanout(args) -> int:
         "wall_s": round(wall, 2),
         "violations": len(violations),
     }
-    os.makedirs(os.path.join(VERIF, "evidence"), exist_ok=True)
-    with open(os.path.join(VERIF, "evidence", f"{mod.PID}.json"), "w") as f:
+    # evidence describes /repo's working tree: runs against a scratch copy (VERIF_REPO: sensitivity runs on mutants and
+    # seeded changes) write theirs elsewhere so that they never replace it
+    evdir = os.path.join(VERIF, "evidence")
+    if os.environ.get("VERIF_REPO", "/repo").rstrip("/") != "/repo":
+        evdir = os.environ.get("VERIF_EVIDENCE_DIR") or os.path.join(os.environ["VERIF_REPO"], ".vfw-evidence")
+    os.makedirs(evdir, exist_ok=True)
+    with open(os.path.join(evdir, f"{mod.PID}.json"), "w") as f:
         json.dump(evidence, f, indent=1, sort_keys=True)
         f.write("\n")
 
